@@ -401,6 +401,8 @@ func (e *env) ancestorsUnknown(rng *rand.Rand, x *refmodel.Node) {
 	for _, q := range []string{
 		fmt.Sprintf("/api/v1/chain/header/%s/%s/ancestor", x.Hash, h),
 		fmt.Sprintf("/api/v1/chain/header/%s/%s/ancestor", h, x.Hash),
+		// the same unknown hash twice, and a stored hash in another letter case (a different string, not a stored hash)
+		fmt.Sprintf("/api/v1/chain/header/%s/%s/ancestor", h, h),
 	} {
 		code, b := e.get(q)
 		if code == 200 || code >= 500 {
